@@ -862,7 +862,8 @@ def comparison_only(dag, names, consts_out=None):
         for x in nodes:
             if id(x) in words:
                 continue
-            if x[0] == "call" and x[1] == "kth" and all(id(e) in words or e[0] == "c" for e in x[2][1:]):
+            if x[0] == "call" and x[1] == "kth" and all(id(e) in words for e in x[2][1:]):
+                # (an order statistic that mixes the words with a constant compares every word with that constant)
                 words[id(x)] = x
                 changed = True
             elif x[0] == "ite" and id(x[2]) in words and id(x[3]) in words:
